@@ -11,7 +11,8 @@ Line: `<kind> <params…> <op>…`
   `pre <interval> <script> (w:<hex> | c)…`    preemptable writer (`c`: close the channel)
   `valve <open 0|1> <script> (w:<hex> | s)…`  valve writer (`s`: Shut)
   `mc <e>,<e>,…`                              multi-closer (0: closes fine, k>0: returns error k)
-`<script>` is `-` or `accept/fail;…` (downstream responses).
+`<script>` is `-` or `accept/mode;…` (downstream responses; mode 0: error iff
+short, 1: error, 2: never an error, even when short).
 Output: per write `<n>/<err>` (line processor: plus `[callback arguments]`),
 then ` |<downstream bytes>|<offered lengths>|<writer state>`.
 -/
@@ -23,7 +24,7 @@ def parseScript (s : String) : Option (List WResp) :=
   if s == "-" then some [] else
   (s.splitOn ";").mapM fun r =>
     match r.splitOn "/" with
-    | [a, f] => do pure { accept := ← a.toNat?, fail := f == "1" }
+    | [a, f] => do pure { accept := ← a.toNat?, fail := f == "1", lax := f == "2" }
     | _ => none
 
 def parseInt (s : String) : Option Int :=
